@@ -30,6 +30,11 @@ type flowsState struct {
 	// engine2: two overlapping flows
 	specs2 map[string]flow2Spec
 	eng2   *engine2Inst
+	same2  bool
+	lists2 map[string][]int
+	// overlap: direct mode on a manual clock, transactions may overlap inside the cool-down
+	mclk   *detclock.Manual
+	parked []*parkedTxn
 	// both
 	keys map[string]bool // counter keys touched by fx ops
 }
@@ -75,7 +80,7 @@ func flowsOp(st *caseState, w []string) string {
 	case "fmode":
 		mode, ok1 := kvS(w, "mode")
 		tmo, ok2 := kvS(w, "timeout")
-		if !ok1 || !ok2 || st.fl != nil || (mode != "direct" && mode != "engine" && mode != "engine2") {
+		if !ok1 || !ok2 || st.fl != nil || (mode != "direct" && mode != "engine" && mode != "engine2" && mode != "overlap") {
 			return "bad-op"
 		}
 		if tmo != "unset" {
@@ -92,6 +97,31 @@ func flowsOp(st *caseState, w []string) string {
 				return "bad-op"
 			}
 			fs.lo, fs.hi = lo, hi
+			if mode == "engine2" {
+				// optional: url2=same|items (flow B on the same url pattern as flow A), sa= / sb= flow-filter status lists
+				if u, ok := kvS(w, "url2"); ok {
+					if u != "same" && u != "items" {
+						return "bad-op"
+					}
+					fs.same2 = u == "same"
+				}
+				fs.lists2 = map[string][]int{}
+				for letter, k := range map[string]string{"A": "sa", "B": "sb"} {
+					if v, ok := kvS(w, k); ok && v != "-" {
+						for _, part := range strings.Split(v, ",") {
+							var n int
+							if _, err := fmt.Sscanf(part, "%d", &n); err != nil || fmt.Sprint(n) != part {
+								return "bad-op"
+							}
+							fs.lists2[letter] = append(fs.lists2[letter], n)
+						}
+					}
+				}
+			}
+		} else if mode == "overlap" {
+			fs.mclk = detclock.NewManual(1_700_000_000_000_000_000)
+			fs.lctx = lunarcontext.NewContextManager().WithFlowContext().GetLunarContext()
+			fs.procs = map[string]streamtypes.ProcessorI{}
 		} else {
 			fs.clk = detclock.NewAuto(1_700_000_000_000_000_000)
 			fs.lctx = lunarcontext.NewContextManager().WithFlowContext().GetLunarContext()
@@ -145,6 +175,9 @@ func flowsOp(st *caseState, w []string) string {
 			},
 			Clock: fs.clk,
 		}
+		if fs.mode == "overlap" {
+			md.Clock = fs.mclk
+		}
 		p, err := processorretry.NewProcessor(md)
 		if err != nil {
 			return classifyInitErr(err)
@@ -158,7 +191,7 @@ func flowsOp(st *caseState, w []string) string {
 		}
 		var tmo int64
 		fmt.Sscan(fs.timeout, &tmo)
-		e, err := newEngine2(scratch, fs.specs2, int(fs.lo), int(fs.hi), int(tmo))
+		e, err := newEngine2(scratch, fs.specs2, int(fs.lo), int(fs.hi), int(tmo), fs.same2, fs.lists2)
 		if err != nil {
 			return classifyInitErr(err)
 		}
@@ -204,7 +237,7 @@ func flowsOp(st *caseState, w []string) string {
 			return fmt.Sprintf("%s wait=%d act=%d ctr=%d", tag, wait, b2i(retry), b2i(fs.eng.counterExists(key)))
 		}
 		p, ok := fs.procs[pn]
-		if !ok {
+		if !ok || fs.mode == "overlap" {
 			return "bad-op"
 		}
 		fs.keys[key] = true
@@ -226,6 +259,35 @@ func flowsOp(st *caseState, w []string) string {
 			tag = "other:" + proto.Enc(tag)
 		}
 		return fmt.Sprintf("%s wait=%d act=%d ctr=%d", tag, wait, b2i(retry), b2i(fs.lctx.GetFlowContext().Exists(key)))
+	case "fxb":
+		// begin one transaction of a sequence; it may stay parked in its cool-down while others begin
+		fs := st.fl
+		pE, ok0 := kvS(w, "p")
+		sE, ok1 := kvS(w, "seq")
+		idE, ok2 := kvS(w, "id")
+		if fs == nil || fs.mode != "overlap" || !ok0 || !ok1 || !ok2 {
+			return "bad-op"
+		}
+		pn, seq, txn := proto.Dec(pE), proto.Dec(sE), proto.Dec(idE)
+		p, ok := fs.procs[pn]
+		if !ok || fs.findParked(txn) >= 0 {
+			return "bad-op"
+		}
+		key := counterKey(pn, seq)
+		fs.keys[key] = true
+		return fs.begin(p, key, seq, txn)
+	case "fxe":
+		// the cool-down of a parked transaction is over
+		fs := st.fl
+		idE, ok := kvS(w, "id")
+		if fs == nil || fs.mode != "overlap" || !ok {
+			return "bad-op"
+		}
+		i := fs.findParked(proto.Dec(idE))
+		if i < 0 {
+			return "bad-op"
+		}
+		return fs.finish(i)
 	case "fq":
 		fs := st.fl
 		pE, ok0 := kvS(w, "p")
